@@ -25,8 +25,8 @@ git apply $d/patch.diff || { echo "{\"id\":\"$id-$n\",\"applies\":false}" > $out
 go build ./... > $R/verify/$id-$n.build.log 2>&1; build=$?
 with=$(run_demo with)
 rm -f $wt/$dest/zz_demo_${id}_${n}_test.go
-go test -vet=off -count=1 -timeout 25m ./... > $R/verify/$id-$n.suite.log 2>&1; suite=$?
-if [ $suite -ne 0 ]; then go test -vet=off -count=1 -timeout 25m ./... > $R/verify/$id-$n.suite.log 2>&1; suite=$?; fi
+go test -vet=off -count=1 -p 6 -timeout 25m ./... > $R/verify/$id-$n.suite.log 2>&1; suite=$?
+if [ $suite -ne 0 ]; then go test -vet=off -count=1 -p 6 -timeout 25m ./... > $R/verify/$id-$n.suite.log 2>&1; suite=$?; fi
 git checkout -q -- . ; git clean -fdq
 echo "{\"id\":\"$id-$n\",\"applies\":true,\"build_rc\":$build,\"demo_without_rc\":$without,\"demo_with_rc\":$with,\"suite_with_rc\":$suite}" > $out
 cat $out
